@@ -29,9 +29,11 @@ ASSUMPTIONS = [
     "rebuilt one must then raise the same exception type)",
     "option values come from the admissible table in vf/gen/qoptions.py "
     "(docstrings/asserts); post_training_scale only as numpy array",
-    "lost_options = smallest set of options (size<=2) whose removal from a "
-    "directly built quantizer reproduces the rebuilt one on all probes, "
-    "computed on the 1-minimal failing option set",
+    "lost_options = a minimal set of options whose removal from a directly "
+    "built quantizer reproduces the rebuilt one on all probes (the options "
+    "missing from get_config() are tried first, then all subsets of size "
+    "<=2); several lost options are reported one by one; raising routes are "
+    "reduced to the 1-minimal failing option set instead",
 ]
 BUDGET_S = {"quick": 70, "thorough": 800}
 ROUTES = ["from_config", "get_quantizer_dict", "get_quantizer_legacy_dict",
@@ -355,7 +357,7 @@ def run(ctx):
              nontrivial=bool(case["kw"]) and st.get("orig_ok", False))
     return [(sc, sig, d) for sc, sig, d, _ in fails]
 
-  n = (480 if ctx.quick else 16000) // ctx.n + 1
+  n = (480 if ctx.quick else 8000) // ctx.n + 1
   core.hyp_run(ctx, case_st(), orc, n, name="c09")
 
 
